@@ -253,6 +253,7 @@ def evalMon (cfg : Cfg) (name : String) (tr : List Item) : Option Bool :=
   | "c13-start-once" => some (Afkak.Monitor.C13.startOnceOk tr)
   | "c13-quiescent" => some (Afkak.Monitor.C13.quiescentOk tr)
   | "c13-shutdown" => some (Afkak.Monitor.C13.shutdownOk cfg.group tr)
+  | "c13-shutdown-inproc" => some (Afkak.Monitor.C13.shutdownInprocOk cfg.group tr)
   | "c13-no-crash" => some (Afkak.Monitor.C13.noCrashOk tr)
   | "c14-delays" => some (Afkak.Monitor.C14.delaysOk cfg.retryInit cfg.retryMax tr)
   | "c14-reset" => some (Afkak.Monitor.C14.resetOk cfg.reset tr)
